@@ -58,7 +58,7 @@ impl<S> CipherStream<S, Aes128Cfb8Enc, Aes128Cfb8Dec> {
 impl<S, E, D> AsyncWrite for CipherStream<S, E, D>
 where
     S: AsyncWrite + Unpin,
-    E: BlockEncryptMut + Unpin,
+    E: BlockEncryptMut + Clone + Unpin,
     D: BlockDecryptMut + Unpin,
 {
     fn poll_write(
@@ -73,15 +73,31 @@ where
             return Pin::new(&mut self_mut.inner).poll_write(cx, buf);
         };
 
-        // encrypt buffer
-        let mut buf = buf.to_vec();
-        for chunk in buf.chunks_mut(Aes128Cfb8Enc::block_size()) {
+        // encrypt buffer with a copy of the cipher, the inner stream may not accept all of it
+        let mut next = enc.clone();
+        let mut encrypted = buf.to_vec();
+        for chunk in encrypted.chunks_mut(Aes128Cfb8Enc::block_size()) {
             let gen_arr = GenericArray::from_mut_slice(chunk);
-            enc.encrypt_block_mut(gen_arr);
+            next.encrypt_block_mut(gen_arr);
         }
 
         // pass to inner
-        Pin::new(&mut self_mut.inner).poll_write(cx, &buf)
+        let poll_result = Pin::new(&mut self_mut.inner).poll_write(cx, &encrypted);
+
+        // advance the cipher only by the bytes that were actually written
+        if let Poll::Ready(Ok(written)) = &poll_result {
+            if *written == buf.len() {
+                *enc = next;
+            } else {
+                let mut accepted = buf[..*written].to_vec();
+                for chunk in accepted.chunks_mut(Aes128Cfb8Enc::block_size()) {
+                    let gen_arr = GenericArray::from_mut_slice(chunk);
+                    enc.encrypt_block_mut(gen_arr);
+                }
+            }
+        }
+
+        poll_result
     }
 
     fn poll_flush(self: Pin<&mut Self>, cx: &mut Context<'_>) -> Poll<Result<(), std::io::Error>> {
